@@ -23,8 +23,8 @@ import (
 // Generous bounds on waits for the real session (nominal: milliseconds). A
 // wait that exceeds them makes the history inconclusive, never a violation.
 const (
-	createBound = 3 * time.Minute
-	flushBound  = 5 * time.Minute
+	createBound = 2 * time.Minute
+	flushBound  = 2 * time.Minute
 )
 
 var errWait = errors.New("wait bound exceeded")
